@@ -34,6 +34,10 @@ for p in props:
         print(p, "generate FAILED:", e)
     rc, out = core.lake_build([f"IcingaProofs.{p}"])
     print(p, "proofs", "ok" if rc == 0 else "FAILED\n" + out[-1500:])
+    try:
+        core.shared_ties(p)
+    except Exception as e:  # noqa
+        print(p, "shared ties FAILED:", e)
     if mod.CHECK.has_driver:
         try:
             core.build_driver(p)
